@@ -85,6 +85,8 @@ type gen struct {
 	insts         []*TExpr // generic instantiations usable as field types
 	subNames      map[string]bool
 	usedDashComma bool
+	hiddenSub     *Pkg  // sub-package the root does not import directly
+	bridge        *Decl // struct of the next sub-package holding a value of the hidden one
 }
 
 var typeStems = []string{"Item", "Order", "Client", "Invoice", "Ticket", "Parcel", "Wagon", "Garden", "Planet", "Route", "Sensor", "Ledger", "Recipe", "Module", "Window", "Bridge", "Castle", "Dragon", "Engine", "Forest", "Harbor", "Island", "Jungle", "Kernel", "Lantern", "Meadow", "Needle", "Orchard", "Pillar", "Quarry", "Rocket", "Saddle", "Tunnel", "Valley", "Walrus", "Yacht", "Zipper", "Anchor", "Basket", "Candle"}
@@ -142,6 +144,10 @@ func NewTypeProg(seed int64, idx int, r *rand.Rand, opts TypeOpts) *Program {
 	g.makeStructs()
 	if opts.SameNameInSub && opts.Unions {
 		g.makeSameNameStruct()
+	}
+	if g.bridge != nil && len(g.structs) > 0 {
+		host := g.structs[0]
+		host.Fields = append(host.Fields, &Field{Name: g.fresh("Via" + g.bridge.Name), Type: Ref(g.bridge)})
 	}
 	if opts.Recursive {
 		g.makeRecursive()
@@ -213,7 +219,7 @@ func (g *gen) makeSubs() {
 				}
 			}
 		}
-		if prev != nil && g.pr(0.6) {
+		if prev != nil && (g.pr(0.6) || g.hiddenSub == prev) {
 			// use a type of the previous sub package
 			for _, d := range prev.Decls {
 				if d.Kind == DStruct {
@@ -228,7 +234,16 @@ func (g *gen) makeSubs() {
 		ns := &Decl{Name: sg.fresh("List" + st.Name), Pkg: sub, File: "named.go", Kind: DNamed, Under: Slice(Ref(en))}
 		idt := &Decl{Name: sg.fresh("Id" + st.Name), Pkg: sub, File: "types.go", Kind: DNamed, Under: Basic("int64")}
 		sub.Decls = append(sub.Decls, st, ns, idt)
-		g.subTypes = append(g.subTypes, st, ns, en, idt)
+		if i == 0 && g.opts.NumSubs >= 2 && g.pr(0.5) {
+			// the root never names this package: it is reached only through the next sub-package
+			g.hiddenSub = sub
+			g.p.Feature("sub-package-reached-only-through-another-package")
+		} else {
+			g.subTypes = append(g.subTypes, st, ns, en, idt)
+		}
+		if g.hiddenSub != nil && g.hiddenSub == prev {
+			g.bridge = st
+		}
 		g.p.Feature("sub-package")
 		// a union inside the sub package (never used from the root: outside the domain),
 		// with an implementer; checks package walk of union detection
